@@ -731,6 +731,39 @@ fn loaded_programs(out: &mut Out) {
             Err(p) => out.bad.entry(format!("panic/{}", p.file())).or_default().push((format!("loaded name={:?}", name), format!("panic at {}: {}", p.site(), p.msg))),
         }
     }
+    // long lives: looping programs that touch the band edges on every turn, 100 000 monitored edges each
+    for (name, src) in [
+        ("push/pop at the band edge", "#! mrasm\n*STACKSIZE 16\n LDSP 0xE0\nL:\n PUSH R0\n POP R1\n INC R0\n JR L\n"),
+        ("call/ret loop", "#! mrasm\n*STACKSIZE 32\n LDSP 0xD1\nL:\n CALL S\n INC R2\n JR L\nS:\n PUSH R2\n POP R1\n RET\n"),
+        ("counting with MUL/DIV", "#! mrasm\n*STACKSIZE 0\n LDSP 0xEF\n LD R1, 3\nL:\n INC R0\n MUL R0, R1\n DIV R0, R1\n PUSHF\n POPF\n JR L\n"),
+        ("pc at the limit", "#! mrasm\n*PROGRAMSIZE 12\n LDSP 0x80\nL:\n NOP\n NOP\n NOP\n NOP\n NOP\n JR L\n"),
+        ("ldsp sweep", "#! mrasm\n*STACKSIZE 64\n LD R0, 0\nL:\n LDSP R0\n DEC R0\n JR L\n"),
+    ] {
+        out.runs += 1;
+        let r = mc::catch(|| {
+            let mut m = Machine::new(MachineConfig::default());
+            m.load(Translator::compile(&AsmParser::parse(src).expect("fixed program parses")));
+            let mut st = MonStats::default();
+            let mut viol = None;
+            for _ in 0..100_000 {
+                viol = monitored_edge(&mut m, &mut st);
+                if viol.is_some() || m.state() != State::Running {
+                    break;
+                }
+            }
+            (st, viol)
+        });
+        match r {
+            Ok((st, viol)) => {
+                out.st.edges += st.edges;
+                out.st.flips_error_rule += st.flips_error_rule;
+                if let Some((k, w)) = viol {
+                    out.bad.entry(k).or_default().push((format!("loaded name={:?}", name), format!("[long life: {}] {}", name, w)));
+                }
+            }
+            Err(p) => out.bad.entry(format!("panic/{}", p.file())).or_default().push((format!("loaded name={:?}", name), format!("panic at {}: {}", p.site(), p.msg))),
+        }
+    }
     // second loads: every ordered pair (first program run for a while, then the second one loaded on the
     // same machine). A NOSET directive leaves the limit of the first life in force; every other program
     // installs its own. The expectation comes from the program texts, not from the machine's getters.
